@@ -153,6 +153,9 @@ PROPS = {
     'C02': _kan_props(['KVerif.Props.C02'],
         'hand-written capacity-edge shapes (11-14 held layers, 18 stacked one-shot layers, repeat re-entering its container, 11 concurrent tap-holds + queue flood, every valid key code once) plus random whole-grammar configurations (incl. custom actions) driven by histories that are not physically consistent (repeated presses, stray releases, repeat and tap events, unmapped codes, floods of 70-200 events); non-trivial = output changed at least twice; oracle: every configuration the real parser accepts must satisfy CfgWF (evaluated by the driver on the serialised parse result) and must be processed without panic/abort/hang',
         None, _crash_or_ok),
+    'C18': _kan_props(['KVerif.Props.C18'],
+        'virtual keys with marker outputs (also a layer, a macro, a one-shot, a tap-hold as virtual key action) operated by on-press/on-release fake-key actions (press, release, tap, toggle), direct handle_fakekey_action calls, hold-for-duration with durations {1,2,3,5,10,50} x re-activation gaps {0,1,D-1,D,D+1,D+5} x 1-3 activations, on-idle actions under the virtual-time processing loop with idle durations {5,20,100} and typing that restarts the idle clock, plus random unsettled mixes; non-trivial = output changed at least twice; oracle on the implementation trace: settled operation sequences leave the virtual key held/up as press/release/tap/toggle prescribe, hold-for-duration releases no earlier than D after an activation and ends released, on-idle fires exactly once, not before D ms of idleness',
+        'C18o'),
     'C14': _kan_props(['KVerif.Props.C14'],
         'simple single-layer configurations (plain keys, output chords, multi, use-defsrc) and whole-grammar configurations on 1-4 layers (tap-hold, tap-dance, one-shot, fork, switch, chords v1, unmod/unshift, virtual keys), keys held while OS repeat events are injected after any event; the key-output table recomputed by the model from the serialised actions is compared with the table the real parser built; non-trivial = a repeat event was injected while a key was down and the output changed at least twice; oracle on the implementation trace: at most one event per repeat, only for a key that is down at the OS, and on simple configurations a repeat for the last-listed output that is down',
         'C14o', None, lambda case, impl: ' rp ' in case and impl.count('@') >= 2),
